@@ -11,10 +11,12 @@ structure Diff where
   field : String
   model : String
   impl : String
+  /-- properties this difference is a counterexample to (given the theorems about the model) -/
+  props : List String := []
   deriving Repr
 
 def Diff.show (d : Diff) : String :=
-  s!"ev={d.ev} field={d.field} model=[{d.model}] impl=[{d.impl}]"
+  s!"ev={d.ev} props={",".intercalate d.props} field={d.field} model=[{d.model}] impl=[{d.impl}]"
 
 /-- model states of the (at most two) instances of a script -/
 structure Insts where
@@ -24,17 +26,52 @@ structure Insts where
 def Insts.get (i : Insts) (n : Nat) : MState := if n = 0 then i.a else i.b
 def Insts.set (i : Insts) (n : Nat) (m : MState) : Insts := if n = 0 then { i with a := m } else { i with b := m }
 
+def isInsert : Op → Bool
+  | .insert .. | .insertRange .. => true
+  | _ => false
+
+def kindOf : MState → Kind
+  | .lru _ => .lru | .mru _ => .mru | .fifo _ => .fifo | .rr _ => .rr | .lfu _ => .lfu
+  | .lfuda _ => .lfuda | .tlru _ => .tlru | .utlru _ => .utlru | .utmap _ => .utmap
+
+/-- Which ordering property does a difference with the (proved) policy model contradict?
+`pre`/`post` are the model's states around the call.  Only differences that the theorems turn into a
+counterexample are attributed: a different *victim* of an evicting insert (the model's is the
+policy's, C10–C13, C16), a different use count (C11, C14), a different aging result (C14). -/
+def orderProps (nkeys : Nat) (pre post : MState) (e : Event) (field : String) : List String :=
+  let kind := kindOf pre
+  let mKeys := (post.sweep e.now nkeys).map (·.1)
+  let iKeys := e.obs.sweep.map (·.1)
+  let victimDiff := isInsert e.op && field == "sweep" && mKeys != iKeys && post.size == e.obs.size
+  let countDiff := field == "sweep" && mKeys == iKeys &&
+    (post.sweep e.now nkeys).map (fun (k, v, _) => (k, v)) == e.obs.sweep.map (fun (k, v, _) => (k, v))
+  let countOut := field == "out" && (match e.op with | .findCount .. => true | _ => false)
+  let ageOut := field == "out" && (match e.op with | .age => true | _ => false)
+  -- an expired entry was resident before the call (tlru/utlru)
+  let hadExpired := pre.size > (pre.sweep e.now nkeys).length
+  match kind with
+  | .lru => if victimDiff then ["C10"] else []
+  | .mru => if victimDiff then ["C13"] else []
+  | .fifo => if victimDiff then ["C12"] else []
+  | .lfu => if victimDiff || countDiff || countOut then ["C11"] else []
+  | .lfuda =>
+    if ageOut then ["C14"]
+    else if victimDiff || countDiff || countOut then ["C11", "C14"] else []
+  | .tlru | .utlru => if victimDiff then (if hadExpired then ["C16"] else ["C10"]) else []
+  | _ => []
+
 /-- compare one event with the model's step; `none` = agree -/
 def cmpEvent (nkeys : Nat) (m : MState) (idx : Nat) (e : Event) : MState × Option Diff :=
   let r := m.step e.now e.op
   let m' := r.1
   let sw := m'.sweep e.now nkeys
+  let mk (f a b : String) : Option Diff := some ⟨idx, f, a, b, orderProps nkeys m m' e f⟩
   let d : Option Diff :=
-    if r.2 ≠ e.out then some ⟨idx, "out", showOut r.2, showOut e.out⟩
-    else if m'.size ≠ e.obs.size then some ⟨idx, "size", toString m'.size, toString e.obs.size⟩
-    else if (m'.size == 0) ≠ e.obs.empty then some ⟨idx, "empty", toString (m'.size == 0), toString e.obs.empty⟩
-    else if m'.capacity ≠ e.obs.cap then some ⟨idx, "capacity", toString m'.capacity, toString e.obs.cap⟩
-    else if sw ≠ e.obs.sweep then some ⟨idx, "sweep", showSweep sw, showSweep e.obs.sweep⟩
+    if r.2 ≠ e.out then mk "out" (showOut r.2) (showOut e.out)
+    else if m'.size ≠ e.obs.size then mk "size" (toString m'.size) (toString e.obs.size)
+    else if (m'.size == 0) ≠ e.obs.empty then mk "empty" (toString (m'.size == 0)) (toString e.obs.empty)
+    else if m'.capacity ≠ e.obs.cap then mk "capacity" (toString m'.capacity) (toString e.obs.cap)
+    else if sw ≠ e.obs.sweep then mk "sweep" (showSweep sw) (showSweep e.obs.sweep)
     else none
   (m', d)
 
